@@ -482,4 +482,85 @@ theorem deliverR_served {W : VM P L} (kp : Bool) {hist : List (Entry P)} (hc : C
       unfold deliverR
       simp only [List.dropWhile, hk, hp', if_true, Nat.sub_self]
 
+/-! ### lengths -/
+
+theorem byHeight_some {W : VM P L} {hist : List (Entry P)} {h x : Nat} (hb : byHeight W hist h = some x) :
+    genesisHeight ≤ h ∧ h ≤ frontierHeight hist := by
+  unfold byHeight at hb
+  split at hb
+  · rename_i h1; simp only [frontierHeight]; omega
+  · split at hb
+    · rename_i h2; omega
+    · cases hb
+
+/-- the claimed heights of an accepted run are consecutive from the frontier, so the claimed height of its last momentum
+    IS the height the chain ends at -/
+theorem Steps.last_height {W : VM P L} :
+    ∀ (ds : List DM) {s s' : Node P} {d : DM}, Steps W s (d :: ds) s' →
+      ((d :: ds).getLastD d).m.height = frontierHeight s.hist + (d :: ds).length := by
+  intro ds
+  induction ds with
+  | nil =>
+    intro s s' d h
+    obtain ⟨s1, h1, _⟩ := h
+    simpa using (stepR_true h1).1
+  | cons d2 ds ih =>
+    intro s s' d h
+    obtain ⟨s1, h1, h2⟩ := h
+    obtain ⟨e, _, hh⟩ := stepR_true_hist h1
+    have := ih h2
+    rw [List.getLastD_cons]
+    have e2 : (d2 :: ds).getLastD d = (d2 :: ds).getLastD d2 := by
+      rw [List.getLastD_cons, List.getLastD_cons]
+    rw [e2, this, hh]
+    simp only [frontierHeight, List.length_cons]; omega
+
+theorem rollback_chain (s : Node P) (k : Nat) : (rollback false s k).chain = s.chain.drop k := by
+  unfold rollback
+  split
+  · rename_i h; subst h; simp
+  · simp [Node.chain, List.map_drop]
+
+theorem rollback_length (kp : Bool) (s : Node P) (k : Nat) : (rollback kp s k).hist.length = s.hist.length - k := by
+  unfold rollback
+  split
+  · rename_i h; subst h; simp
+  · simp
+
+/-! ### honest momentums -/
+
+theorem deliverR_honest {W : VM P L} {U : Block → Prop} (hinj : ∀ b b', U b → U b' → b.id = b'.id → b = b')
+    {t : Node P} {m : Momentum} {txs : List (Tx P)} (hi : Inv U W t) (hu : ∀ x ∈ txs, U x.1)
+    (hs : TxsSound W t.hist (conf W t.hist) txs) (hc : txs.map (·.1.hdr) = m.content)
+    (hprev : m.prev = frontierId W t.hist) (hheight : m.height = frontierHeight t.hist + 1)
+    (hh : W.hash (W.pack (ledger W t.hist) txs) = m.changesHash)
+    (hv : W.mvalid (ledger W t.hist) m = true) :
+    (deliverR W false t [⟨m, txs.map (·.1)⟩]).2 = .ok ∧
+      (knownR W t.hist m = false → (deliverR W false t [⟨m, txs.map (·.1)⟩]).1.chain = m :: t.chain) := by
+  obtain ⟨q, hq⟩ := stepMomentum_honest hinj hi hu hs hc hprev hh hv
+  have hstep : stepR W t ⟨m, txs.map (·.1)⟩ =
+      ({ hist := ⟨m, txs, W.pack (ledger W t.hist) txs⟩ :: t.hist, pool := q }, true) := by
+    unfold stepR; simp only [hheight, if_true]; exact hq
+  unfold deliverR
+  cases hk : knownR W t.hist m
+  · simp only [List.dropWhile, hk, hprev, if_true, loopR, hstep]
+    exact ⟨trivial, fun _ => rfl⟩
+  · simp [List.dropWhile, hk]
+
+/-- blocks are pinned by their headers when identifiers do not collide -/
+theorem blocks_eq_of_hdr {U : Block → Prop} (hinj : ∀ b b', U b → U b' → b.id = b'.id → b = b') :
+    ∀ (xs ys : List Block), xs.map Block.hdr = ys.map Block.hdr → (∀ b ∈ xs, U b) → (∀ b ∈ ys, U b) → xs = ys := by
+  intro xs
+  induction xs with
+  | nil => intro ys h _ _; cases ys with | nil => rfl | cons _ _ => simp at h
+  | cons b rest ih =>
+    intro ys h hx hy
+    cases ys with
+    | nil => simp at h
+    | cons b' rest' =>
+      simp only [List.map_cons, List.cons.injEq] at h
+      have hb' : b = b' := hinj b b' (hx b (by simp)) (hy b' (by simp)) (by
+        have := h.1; simp only [Block.hdr, Prod.mk.injEq] at this; exact this.2)
+      rw [hb', ih rest' h.2 (fun x hx' => hx x (by simp [hx'])) (fun x hx' => hy x (by simp [hx']))]
+
 end ZV.NodeReorg
